@@ -8,6 +8,7 @@ from __future__ import annotations
 import collections
 import json
 
+import ber
 import codec as C
 import drive
 import gen
@@ -43,6 +44,24 @@ def run(ctx):
         data = C.msg_from_json(j).pack(M.PackingOptions())
         encs.append(data)
         reqs.append({"op": "rfcdec", "hex": data.hex()})
+    # messages that were RECEIVED (decoded from another conforming encoder's bytes: non-minimal lengths, explicit defaults, trailing elements,
+    # also inside control values) and are sent on: what the library writes for them must again be strict RFC 4511 BER
+    import p_c04
+    fr = p_c04.Freedom(ctx.rng, on=True)
+    n_resent = 0
+    for j in msgs[len(p_c01.corpus_messages()):][: ctx.scale(800, 20000)]:
+        try:
+            node, exp = p_c04.msg_tree(j, fr)
+            got = M.unpack_ldap_message(ASN1Reader(ber.encode(node)), M.PackingOptions())
+            data = got.pack(M.PackingOptions())
+        except BaseException:  # noqa: BLE001
+            continue     # (rejections of permitted encodings are C04's business)
+        j2 = C.msg_to_json(got)
+        msgs.append(j2)
+        encs.append(data)
+        reqs.append({"op": "rfcdec", "hex": data.hex()})
+        n_resent += 1
+    hist["received-then-resent"] = n_resent
     violations = []
     disagreements = []
     samples = []
@@ -80,7 +99,8 @@ def run(ctx):
                 violations.append({"key": None, "what": "UnbindRequest bytes deviate from RFC 4511 by more than the constructed bit",
                                    "msg": j, "hex": data.hex(), "strict_decoder": rep})
     # the model's encoder must agree with the implementation's (ties `encMsg` of the theorem to the code)
-    sub = list(range(0, len(msgs), max(1, len(msgs) // ctx.scale(1500, 20000))))
+    n_gen = len(msgs) - n_resent
+    sub = list(range(0, n_gen, max(1, n_gen // ctx.scale(1500, 20000))))
     creqs = [{"op": "enc", "msg": msgs[i]} for i in sub]
     bad, a, b = drive.correspond(creqs)
     for i, q, x, y in bad[:20]:
@@ -91,7 +111,8 @@ def run(ctx):
         "evaluations": len(msgs),
         "distinct_nontrivial": len(shapes),
         "rule": "messages generated as for C01; each is packed by the implementation and its bytes are decoded by the executable strict "
-                "RFC 4511 decoder of Spec/Rfc4511.lean; the result must equal the message (modulo the raw value of known controls); "
+                "RFC 4511 decoder of Spec/Rfc4511.lean; the result must equal the message (modulo the raw value of known controls); the same for "
+                "messages that were first decoded from another encoder's permitted (non-canonical) bytes and then packed again; "
                 "distinct = distinct (kind, control kinds, filter shape)",
         "samples": samples,
         "histogram": dict(sorted(hist.items())),
